@@ -411,6 +411,34 @@ def _(p):
     return None if len(out) == p["df"] else f"wrong-column-count: bs(df={p['df']}) gave {len(out)} columns"
 
 
+@replay("c13_scale_float")
+def _(p):
+    from formulaic.transforms import center, poly, scale
+
+    x = numpy.array(p["x"], dtype=float)
+    n, ddof = len(x), p["ddof"]
+    st = {}
+    out = numpy.asarray(scale(x, ddof=ddof, _state=st), dtype=float)
+    if not numpy.all(numpy.isfinite(out)):
+        return f"not-finite: scale(x, ddof={ddof}) on {p['x'][:3]}... gives {out.tolist()[:4]}"
+    # exact reference in rationals
+    from fractions import Fraction
+
+    fx = [Fraction(v) for v in p["x"]]
+    mean = sum(fx) / n
+    var = sum((v - mean) ** 2 for v in fx) / (n - ddof)
+    want = [float(v - mean) / math.sqrt(float(var)) for v in fx]
+    if not numpy.allclose(out, want, rtol=1e-6, atol=1e-9):
+        return f"wrong-standardisation: scale(x, ddof={ddof}) on {p['x'][:3]}... gives {out.tolist()[:4]}, exact arithmetic gives {want[:4]}"
+    c = numpy.asarray(center(x, _state={}), dtype=float)
+    if not numpy.allclose(c, [float(v - mean) for v in fx], rtol=1e-9, atol=1e-9 * max(1.0, abs(float(mean)))):
+        return f"wrong-centering: center(x) on {p['x'][:3]}... gives {c.tolist()[:4]}"
+    again = numpy.asarray(scale(x[:2], ddof=ddof, _state=st), dtype=float)
+    if not numpy.allclose(again, want[:2], rtol=1e-6, atol=1e-9):
+        return f"wrong-replay: recorded statistics give {again.tolist()} for the first two rows, expected {want[:2]}"
+    return None
+
+
 @replay("c13_formula_state")
 def _(p):
     import pandas
@@ -430,6 +458,32 @@ def _(p):
         return f"training-row-differs: {p['call']}: training row replays to {mixed[0].tolist()}, recorded {ref[1].tolist()}"
     if not numpy.allclose(mixed[1], alone[0], rtol=1e-9, atol=1e-9, equal_nan=True):
         return f"row-depends-on-companions: {p['call']}: fresh row gives {mixed[1].tolist()} next to a training row, {alone[0].tolist()} alone"
+    return None
+
+
+@replay("c12_null_rows")
+def _(p):
+    from formulaic.transforms import TRANSFORMS
+
+    fn = TRANSFORMS[p["transform"]]
+    base = [0.5, 1.0, 2.25, 3.0, 3.75, 4.0]
+    withnan = base[:2] + [float("nan")] + base[2:]
+    kw = dict(df=3, extrapolation=p["mode"], lower_bound=0.0, upper_bound=4.5) if p["transform"] != "bs" else dict(df=4, extrapolation=p["mode"], lower_bound=0.0, upper_bound=4.5)
+    st_ref, st = {}, {}
+    ref = fn(numpy.array(base), _state=st_ref, **kw)
+    try:
+        if p["replay_state"]:
+            out = fn(numpy.array(withnan), _state=st_ref, **kw)
+        else:
+            out = fn(numpy.array(withnan), _state=st, **kw)
+    except Exception as e:
+        return f"raises: {p['transform']}(x with one null, extrapolation={p['mode']!r}) raised {type(e).__name__}: {str(e)[:100]} although every non-null value is inside the bounds"
+    for k in ref:
+        col = numpy.asarray(out[k], dtype=float)
+        if not numpy.isnan(col[2]):
+            return f"null-row-not-null: {p['transform']}(extrapolation={p['mode']!r}) column {k} holds {col[2]} in the row of the null x"
+        if not numpy.allclose(numpy.delete(col, 2), numpy.asarray(ref[k], dtype=float), rtol=1e-9, atol=1e-12):
+            return f"other-rows-changed: {p['transform']}(extrapolation={p['mode']!r}) column {k} differs from the null-free evaluation"
     return None
 
 
